@@ -178,7 +178,7 @@ func runC08(c *eng.Ctx) {
 						return
 					}
 					src := Render(e)
-					ev, err := bexpr.CreateEvaluator(src, optsFor(cfg)...)
+					ev, err := createWith(src, cfg)
 					if err != nil {
 						c.Violate(eng.Violation{Kind: "harness-expression-rejected", Key: "create: " + src, Detail: err.Error()})
 						continue
